@@ -38,7 +38,7 @@ def run(ctx):
                        "distinct by canonical JSON")
     ctx.assumptions += ["NoColl: the 64-bit hash is injective on the states a run touches (the exception the property grants); a mismatch is re-run under 3 other seeds before it counts",
                         "torch primitives behave as the list models in Tensor.v (validated on every run by this correspondence)"]
-    ctx.prove()
+    ctx.prove(extra=["BfsRun"])
     cases = gen_cases(ctx, ctx.budget(70, 600), ctx.budget(3, 5))
     coq_cases, metas = [], []
     with bfsrun.Monitors() as mon:
